@@ -246,6 +246,35 @@ def check_inplace_change(res, inst):
                       f"{{{keys[0]}: 1, {new_key}: 3, others: 0}} one draw has law "
                       f"{({str(k): str(v) for k, v in law.items()})}", {k: inst[k] for k in ("keys", "t")})
     res.flags.add("inplace-history")
+    # the caller's motif-size list edited in place between two samplings (1 -> 2 and 2 -> 1): the second result must
+    # be divisible by the sizes the loader holds at that time, for every outcome of the draws
+    for first, second in ((1, 2), (2, 1), (1, 3)):
+        bad = []
+
+        def body2():
+            sizes = [first] * t
+            obj = JointDegreeManual({JN.JDD: dict(zip(keys, [1] * len(keys))), JN.MOTIF_SIZES: sizes})
+            obj.sample_jds_from_jdd(1)
+            sizes[:] = [second] * t
+            return obj.sample_jds_from_jdd(1), list(obj.motif_sizes) if hasattr(obj, "motif_sizes") else None
+
+        def on_leaf2(leaf):
+            if leaf.exception is not None:
+                bad.append(f"raised {leaf.exception!r}")
+                return
+            out, held = leaf.outcome
+            if held is not None and held != [second] * t:
+                return   # the loader keeps its own copy of the sizes: the in-place edit does not concern it
+            for i in range(t):
+                if sum(r[i] for r in out) % second:
+                    bad.append(f"returned {out}: column {i} is not divisible by {second}")
+        st = engine.explore(body2, on_leaf2, max_points=30, track_prob=False)
+        res.executions += st.leaves
+        res.transitions += st.points
+        if bad:
+            res.violation("C05:history:stale-motif-sizes", f"keys={keys}: motif sizes edited in place from {first} to "
+                          f"{second} between two samplings: {bad[0]}", {k: inst[k] for k in ("keys", "t")})
+            break
 
 
 def run_instance(inst, tier):
